@@ -34,7 +34,7 @@ def all_cases(ctx):
     cs.append((("star", "input", 7), mkspec("star_input", [("a", "input", [])] + [(f"l{i}", "not" if i % 2 else "buf", ["a"], True) for i in range(7)])))
     cs += F.renamed([c for c in F.f_unit(5, pairs=False) if c[0][2] >= 3], "limit")
     cs += F.renamed([c for c in F.f_unit(3) if c[0][0] == "pair"][:10], "regs")
-    cs += F.f_rand(ctx.seed, 30 if ctx.quick else 300)
+    cs += F.f_rand(ctx.seed, 30 if ctx.quick else 300) + F.f_rand_bb(ctx.seed, 12 if ctx.quick else 100)
     if not ctx.quick:
         import random
         cs += [(("rand24", ctx.seed, i), F.rand_dag(random.Random(f"c05-24-{ctx.seed}-{i}"), n_in=4, n_gates=24, name=f"r24_{i}")) for i in range(60)]
